@@ -94,7 +94,48 @@ pub open spec fn k_e_no_tags() -> spec_fn(DiagnosticKind) -> bool { |k: Diagnost
 pub open spec fn struct_ill_formed(s: Struct) -> bool { n_s_not_empty(s) > 0 || n_s_no_tags(s) > 0 }
 pub open spec fn alias_ill_formed(a: TypeAlias) -> bool { n_a_not_optional(a) > 0 }
 /// (enumerator value range and uniqueness are NOT under contract: closures)
+/// RULE: enumerator values are unique -- one error for every enumerator whose value was used by an earlier one
+pub open spec fn e_value(e: Enumerator) -> i128 { spec_value(e.value) }
+pub open spec fn dup_at(es: Seq<Enumerator>, i: int) -> bool { exists|j: int| 0 <= j < i && e_value(#[trigger] es[j]) == e_value(es[i]) }
+pub open spec fn count_dups(es: Seq<Enumerator>, n: int) -> nat
+    decreases n,
+{
+    if n <= 0 { 0 } else { count_dups(es, n - 1) + (if dup_at(es, n - 1) { 1nat } else { 0nat }) }
+}
+/// the values of the first `n` enumerators
+pub open spec fn seen_values(es: Seq<Enumerator>, n: int) -> Set<i128>
+    decreases n,
+{
+    if n <= 0 { Set::empty() } else { seen_values(es, n - 1).insert(e_value(es[n - 1])) }
+}
+pub proof fn lemma_seen_contains(es: Seq<Enumerator>, n: int, v: i128)
+    requires 0 <= n <= es.len(),
+    ensures seen_values(es, n).contains(v) <==> exists|j: int| 0 <= j < n && e_value(#[trigger] es[j]) == v,
+    decreases n,
+{
+    if n > 0 {
+        lemma_seen_contains(es, n - 1, v);
+        if exists|j: int| 0 <= j < n && e_value(#[trigger] es[j]) == v {
+            let j = choose|j: int| 0 <= j < n && e_value(#[trigger] es[j]) == v;
+            if j < n - 1 { assert(0 <= j < n - 1 && e_value(es[j]) == v); }
+        }
+        if seen_values(es, n - 1).contains(v) {
+            let j = choose|j: int| 0 <= j < n - 1 && e_value(#[trigger] es[j]) == v;
+            assert(0 <= j < n && e_value(es[j]) == v);
+        }
+        if e_value(es[n - 1]) == v { assert(0 <= n - 1 < n && e_value(es[n - 1]) == v); }
+    }
+}
+pub proof fn lemma_seen_step(es: Seq<Enumerator>, n: int)
+    requires 0 <= n < es.len(),
+    ensures seen_values(es, n + 1) == seen_values(es, n).insert(e_value(es[n])),
+            dup_at(es, n) <==> seen_values(es, n).contains(e_value(es[n])),
+{
+    lemma_seen_contains(es, n, e_value(es[n]));
+}
+pub open spec fn n_e_unique(e: Enum) -> nat { count_dups(enumerator_targets(e.enumerators@), e.enumerators@.len() as int) }
+pub open spec fn k_e_unique() -> spec_fn(DiagnosticKind) -> bool { |k: DiagnosticKind| k is Error && k->Error_0 is DuplicateEnumeratorValue }
 pub open spec fn enum_ill_formed(e: Enum) -> bool {
-    n_e_integral(e) > 0 || n_e_not_optional(e) > 0 || n_e_nonempty(e) > 0 || n_e_compact_mod(e) > 0 || n_e_no_tags(e) > 0
+    n_e_unique(e) > 0 || n_e_integral(e) > 0 || n_e_not_optional(e) > 0 || n_e_nonempty(e) > 0 || n_e_compact_mod(e) > 0 || n_e_no_tags(e) > 0
         || (e.underlying is Some && n_e_no_fields(e) > 0)
 }
